@@ -134,7 +134,9 @@ def Node.liveFile? (n : Node) (F f : String) : Option File :=
   | none => none
 
 /-- `FileSystem.copy_file`: the copy has the source's actual AND visible status (`model_dump`), and is added with
-`force=True` (no name check). The destination folder is created if there is no live one. -/
+`force=True`: a LIVE file of that name in the destination is first moved to `deleted_files` (`Folder.add_file`, after
+"fix: add_file(force=True) and copy_file added a second live file of an existing name"), then the copy is added. The
+destination folder is created if there is no live one. (Copying into the source's own folder deletes the source.) -/
 def DNode.copyFile (d : DNode) (srcF f dstF : String) : DNode :=
   match d.n.liveFile? srcF f with
   | none => d
@@ -142,7 +144,8 @@ def DNode.copyFile (d : DNode) (srcF f dstF : String) : DNode :=
     let d1 := match d.n.liveFolder? dstF with
       | some _ => d
       | none => d.createFolder dstF
-    { d1 with n := d1.n.addFile dstF { name := f, actual := src.actual, visible := src.visible, deleted := false } }
+    { d1 with n := (d1.n.mapLiveFolder dstF (fun G => G.mapLiveFile f File.delete)).addFile dstF
+                     { name := f, actual := src.actual, visible := src.visible, deleted := false } }
 
 /-- `get_file(F, f, include_deleted=True)` within live folder `G`: first live match, else first deleted match -/
 def firstAny (f : String) (fs : List File) : Option File :=
@@ -204,8 +207,9 @@ first-match semantics (see the header). -/
 def Folder.twins (G : Folder) : Bool := !(G.files.map (·.name)).Nodup
 def Node.folderTwins (n : Node) : Bool := !(n.folders.map (·.name)).Nodup
 
-/-- two LIVE files named `f` in a live folder named `F` (only `copy_file`'s `add_file(force=True)` can produce this): the
-by-name file operations of the model then reach both, the code the first -/
+/-- two LIVE files named `f` in a live folder named `F`: the by-name file operations of the model would reach both, the code
+the first. Since `add_file(force=True)` replaces a live namesake no operation of this model produces such a state any more
+(it can only be given as a start state); the guard is kept for that case. -/
 def Node.liveTwins (n : Node) (F f : String) : Bool :=
   n.folders.any (fun G => G.name = F && !G.deleted && decide ((G.files.filter (fun x => x.name = f && !x.deleted)).length ≥ 2))
 
